@@ -174,6 +174,10 @@ def hint_of(tp, reg) -> dict:
         return {"k": "list", "of": hint_of(args[0], reg) if args else {"k": "any"}}
     if origin is dict:
         return {"k": "dict", "of": hint_of(args[1], reg) if len(args) > 1 else {"k": "any"}}
+    if tp is dict:        # bare `dict`: get_origin is None, the decoder treats it like a primitive -- but it holds a dict
+        return {"k": "other", "g": {"k": "dict", "of": {"k": "any"}}}
+    if tp in (list, tuple, set):
+        return {"k": "other", "g": {"k": "list", "of": {"k": "any"}}}
     if tp is bytes or tp is bytearray:
         return {"k": "bytes"}
     if tp is io.BytesIO:
@@ -229,6 +233,26 @@ def export_schema() -> dict:
                                     ("iterate_units", "iterate_images", "iterate_tables", "get_full_text")),
                      "enc": p.enc, "dec": p.dec}
     return out
+
+
+def discover_markers():
+    """The marker keys the running serialiser uses, found by serialising probes (not read from its source)."""
+    from sharepoint2text.parsing.extractors.serialization import serialize_extraction
+    from sharepoint2text.parsing.extractors import data_types as dt
+    found = set(serialize_extraction({"k": b"x"})["k"].keys()) | set(serialize_extraction({"k": io.BytesIO(b"x")})["k"].keys())
+    probe = dt.TableDim(rows=1, columns=2)
+    found |= set(serialize_extraction(probe).keys()) - {f.name for f in dataclasses.fields(probe)}
+    return sorted(found)
+
+
+def has_post_init(cls) -> bool:
+    return any("__post_init__" in vars(c) for c in cls.__mro__ if c is not object)
+
+
+# spellings of a string leaf that a normalising constructor does not leave alone, and whose image is
+# not a fixed point of sloppy normalisers (line-end mixes, several kinds of outer white space, NUL, BOM)
+NON_FIXED_POINT_STRINGS = ["a\r\r\nb\r\r\n", "\r\n\na\r\n\n", " \t a \t ", "\x0b\x0ca\x1c\x1d", "\u00a0a\u2028\u3000",
+                           "\x00a\x00", "\ufeffa\ufeff", "a\r", "\ra", "a \r\n \r\n", "  \r\r\n  a  \n\r  "]
 
 
 # ------------------------------------------------------------------ concretiser
@@ -322,6 +346,21 @@ class Builder:
             t = ts[self.order(cname, fname, n)[i % n]] if depth == 0 else ts[(i + 7 * j) % n]
             kwargs[fname] = self.value(t, h, depth, i + j)
         return self.reg[cname](**kwargs)
+
+    def post_init_instances(self, cname):
+        """For a class whose constructor normalises fields: instances whose str-typed fields hold, in turn,
+        each spelling of NON_FIXED_POINT_STRINGS (the other fields as in instance 0)."""
+        cls = self.reg[cname]
+        if not has_post_init(cls):
+            return
+        base = self.instance(cname, 0, 0)
+        strf = [f for f, h, d, init in self.schema[cname]["fields"]
+                if init and (h["g"] if h["k"] == "other" else h) in ({"k": "prim", "p": "str"},
+                                                                      {"k": "opt", "of": {"k": "prim", "p": "str"}})]
+        for s_ in NON_FIXED_POINT_STRINGS:
+            kw = {f.name: getattr(base, f.name) for f in dataclasses.fields(base) if f.init}
+            kw.update({f: s_ for f in strf})
+            yield s_, cls(**kw)
 
     def count(self, cname) -> int:
         n = 1
